@@ -46,11 +46,31 @@ Section X.
         destruct (vv_val vv); [discriminate|apply as_pkg_preserves; assumption].
   Qed.
 
+  Lemma xstep_fmakunbound_q m s p n priv :
+    Inv P NM m s ->
+    match sq_fun s (s_cur s) p n priv with
+    | QUnbound => true
+    | _ => guard_step P NM (sstep s (OInPkg p)) (OFmakunbound n)
+    end = true ->
+    Inv P NM (fmakunbound_q m p n priv) (s_fmakunbound_q s p n priv).
+  Proof.
+    intros HI G.
+    assert (Hc : cur m = s_cur s) by (destruct HI as (HC & _); exact (c_cur _ _ _ HC)).
+    unfold fmakunbound_q, s_fmakunbound_q. rewrite Hc, (q_fun_eq P NM m s) by exact HI.
+    assert (K : Inv P NM (as_pkg m p (OFmakunbound n)) (sas_pkg s p (OFmakunbound n)) \/
+                sq_fun s (s_cur s) p n priv = QUnbound).
+    { destruct (sq_fun s (s_cur s) p n priv); [left|right; reflexivity|left|left];
+        (unfold as_pkg, sas_pkg; rewrite Hc; apply step_preserves; [|reflexivity];
+         apply step_preserves; [|exact G]; apply step_preserves; [exact HI|reflexivity]). }
+    destruct K as [K|K]; [|rewrite K; exact HI].
+    destruct (sq_fun s (s_cur s) p n priv); try exact K; exact HI.
+  Qed.
+
   (* ---- every guarded step, qualified writes included, preserves the relation ---- *)
   Theorem xstep_preserves m s o :
     Inv P NM m s -> xguard_step P NM s o = true -> Inv P NM (xstep m o) (sxstep s o).
   Proof.
-    intros HI G. destruct o as [o|p n v priv|p n v priv]; cbn [xstep sxstep xguard_step] in *.
+    intros HI G. destruct o as [o|p n v priv|p n v priv|p n priv]; cbn [xstep sxstep xguard_step] in *; [| | |apply xstep_fmakunbound_q; assumption].
     - apply step_preserves; assumption.
     - apply xstep_setq_q; assumption.
     - apply andb_true_iff in G. destruct G as [Hn G]. apply xstep_defvar_q; [assumption|assumption|].
